@@ -14,7 +14,7 @@ PROP = dict(
     regen=['consts', 'toolconsts'],
     theorems=['Fit.C20.C20_conceal_hides', 'Fit.C20.C20_conceal_records_exact', 'Fit.C20.C20_conceal_only_positions',
               'Fit.C20.C20_remove_exact', 'Fit.C20.C20_reduce_exact_distance', 'Fit.C20.C20_reduce_exact_distance_mono',
-              'Fit.C20.C20_reduce_exact_time', 'Fit.C20.C20_reduce_conserves', 'Fit.C20.C20_reduce_rdp_sublist',
+              'Fit.C20.C20_reduce_exact_time', 'Fit.C20.C20_reduce_conserves', 'Fit.C20.C20_reduce_rdp_sublist', 'Fit.C20.C20_reduce_rdp_exact',
               'Fit.C20.C20_combine_order', 'Fit.C20.C20_combine_sort', 'Fit.C20.C20_conceal_lap_session_F17_witness',
               'Fit.C20.C20_conceal_lap_session_start_partial', 'Fit.C20.C20_conceal_lap_session_end', 'Fit.C20.C20_conceal_lap_session_none_revealed'],
     families=[dict(name='activity', prop=True)],
